@@ -25,6 +25,7 @@
 #include <memory>
 #include <array>
 #include <cmath>
+#include <climits>
 #include <sys/mman.h>
 #include <sys/wait.h>
 #include <signal.h>
@@ -51,8 +52,70 @@ extern "C" int CppUTestVerif_JumpBufferCapacity(void);
 enum { K_MARK, K_PASS, K_FAILCPP, K_FAILC, K_THROWSTD, K_THROWINT, K_PRINT, K_EXIT, K_N };
 static const char* KNAME[] = { "mark", "pass", "failcpp", "failc", "throwstd", "throwint", "print", "exit", "plugin" };
 enum { K_PLUGIN = K_N };
-static const int N_CPP = 25, N_C = 18, N_STD = 4, N_INT = 4, N_PASS = 6;
+static const int N_STD = 4, N_INT = 4;
 static const char* PHNAME[] = { "setup", "body", "teardown" };
+
+// ---- the check catalogue: which check form a statement variant is, and which class of arguments it gets on its passing and on its
+// failing path. Every check family (assert function of UtestShell / the C interface) appears with ordinary arguments and with the boundary
+// arguments that take one of its early-return / shortcut paths (length 0, NULL operands, empty mask, zero tolerance, infinities, extreme
+// values). "One executed check = one counted check" whatever the arguments, on the passing and on the failing path.
+// (CHECK_COMPARE is not in the catalogue: on its passing path the macro does not call into the framework at all, see props.d/C01.py.)
+struct Form { const char* macro; const char* family; const char* pass_args; const char* fail_args; };
+static const Form CPPFORM[] = {   // do_cpp(): C++-style checks through the *_LOCATION macros (indices are the statement variants)
+    { "CHECK", "true", "ordinary", "ordinary" }, { "CHECK_TRUE", "true", "ordinary", "ordinary" }, { "CHECK_FALSE", "true", "ordinary", "ordinary" },
+    { "FAIL-else-CHECK", "fail", "ordinary", "ordinary" }, { "LONGS_EQUAL", "longs", "ordinary", "ordinary" }, { "UNSIGNED_LONGS_EQUAL", "ulongs", "ordinary", "ordinary" },
+    { "LONGLONGS_EQUAL", "longlongs", "ordinary", "ordinary" }, { "UNSIGNED_LONGLONGS_EQUAL", "ulonglongs", "ordinary", "ordinary" }, { "STRCMP_EQUAL", "cstr", "ordinary", "ordinary" },
+    { "STRCMP_EQUAL", "cstr", "ordinary", "one_null_operand" }, { "STRNCMP_EQUAL", "cstrn", "ordinary", "ordinary" }, { "STRCMP_NOCASE_EQUAL", "cstr_nocase", "ordinary", "ordinary" },
+    { "STRCMP_CONTAINS", "contains", "ordinary", "ordinary" }, { "STRCMP_NOCASE_CONTAINS", "nocase_contains", "ordinary", "ordinary" }, { "DOUBLES_EQUAL", "doubles", "ordinary", "ordinary" },
+    { "POINTERS_EQUAL", "pointers", "ordinary", "ordinary" }, { "FUNCTIONPOINTERS_EQUAL", "fpointers", "ordinary", "ordinary" }, { "CHECK_EQUAL", "equals", "ordinary", "ordinary" },
+    { "MEMCMP_EQUAL", "binary", "ordinary", "ordinary" }, { "BITS_EQUAL", "bits", "ordinary", "ordinary" }, { "SIGNED_BYTES_EQUAL", "sbytes", "ordinary", "ordinary" },
+    { "ENUMS_EQUAL_TYPE", "equals", "ordinary", "ordinary" }, { "FAIL_TEST-else-LONGS_EQUAL", "fail", "ordinary", "ordinary" }, { "DOUBLES_EQUAL", "doubles", "ordinary", "nan" },
+    { "CHECK_EQUAL", "equals", "ordinary", "ordinary" },
+    // boundary arguments (index 25..)
+    { "MEMCMP_EQUAL", "binary", "length_0", "ordinary" }, { "MEMCMP_EQUAL", "binary", "both_operands_null", "one_null_operand" }, { "MEMCMP_EQUAL", "binary", "prefix", "prefix" },
+    { "STRCMP_EQUAL", "cstr", "both_operands_null", "one_null_operand" }, { "STRNCMP_EQUAL", "cstrn", "length_0", "ordinary" }, { "STRNCMP_EQUAL", "cstrn", "both_operands_null", "one_null_operand" },
+    { "STRCMP_NOCASE_EQUAL", "cstr_nocase", "both_operands_null", "one_null_operand" }, { "STRCMP_CONTAINS", "contains", "both_operands_null", "one_null_operand" },
+    { "STRCMP_NOCASE_CONTAINS", "nocase_contains", "both_operands_null", "one_null_operand" }, { "BITS_EQUAL", "bits", "empty_mask", "ordinary" }, { "DOUBLES_EQUAL", "doubles", "zero_tolerance", "zero_tolerance" },
+    { "DOUBLES_EQUAL", "doubles", "infinities", "infinities" }, { "CHECK_EQUAL", "equals", "bool_operands", "bool_operands" }, { "CHECK_EQUAL", "equals", "double_operands", "double_operands" },
+    { "POINTERS_EQUAL", "pointers", "both_operands_null", "one_null_operand" }, { "FUNCTIONPOINTERS_EQUAL", "fpointers", "both_operands_null", "one_null_operand" },
+    { "LONGS_EQUAL", "longs", "extreme_values", "extreme_values" }, { "UNSIGNED_LONGS_EQUAL", "ulongs", "extreme_values", "extreme_values" },
+};
+static const Form CFORM[] = {     // do_c(): C-interface checks (leave by longjmp in every build)
+    { "CHECK_C", "true", "ordinary", "ordinary" }, { "FAIL_TEXT_C-else-CHECK_C", "fail", "ordinary", "ordinary" }, { "FAIL_C-else-CHECK_C", "fail", "ordinary", "ordinary" },
+    { "CHECK_EQUAL_C_BOOL", "equals", "ordinary", "ordinary" }, { "CHECK_EQUAL_C_INT", "longs", "ordinary", "ordinary" }, { "CHECK_EQUAL_C_UINT", "ulongs", "ordinary", "ordinary" },
+    { "CHECK_EQUAL_C_LONG", "longs", "ordinary", "ordinary" }, { "CHECK_EQUAL_C_ULONG", "ulongs", "ordinary", "ordinary" }, { "CHECK_EQUAL_C_LONGLONG", "longlongs", "ordinary", "ordinary" },
+    { "CHECK_EQUAL_C_ULONGLONG", "ulonglongs", "ordinary", "ordinary" }, { "CHECK_EQUAL_C_REAL", "doubles", "ordinary", "ordinary" }, { "CHECK_EQUAL_C_CHAR", "equals", "ordinary", "ordinary" },
+    { "CHECK_EQUAL_C_UBYTE", "equals", "ordinary", "ordinary" }, { "CHECK_EQUAL_C_SBYTE", "equals", "ordinary", "ordinary" }, { "CHECK_EQUAL_C_STRING", "cstr", "ordinary", "ordinary" },
+    { "CHECK_EQUAL_C_POINTER", "pointers", "ordinary", "ordinary" }, { "CHECK_EQUAL_C_MEMCMP", "binary", "ordinary", "ordinary" }, { "CHECK_EQUAL_C_BITS", "bits", "ordinary", "ordinary" },
+    // boundary arguments (index 18..)
+    { "CHECK_EQUAL_C_MEMCMP", "binary", "length_0", "ordinary" }, { "CHECK_EQUAL_C_MEMCMP", "binary", "both_operands_null", "one_null_operand" }, { "CHECK_EQUAL_C_STRING", "cstr", "both_operands_null", "one_null_operand" },
+    { "CHECK_EQUAL_C_BITS", "bits", "empty_mask", "ordinary" }, { "CHECK_EQUAL_C_REAL", "doubles", "zero_tolerance", "zero_tolerance" }, { "CHECK_EQUAL_C_POINTER", "pointers", "both_operands_null", "one_null_operand" },
+    { "CHECK_EQUAL_C_BOOL", "equals", "different_truthy_values", "ordinary" },
+};
+static const Form PASSFORM[] = {  // do_pass(): checks that pass, written the way test authors write them (plain macros; a passing check prints no location)
+    { "CHECK_TRUE_LOCATION", "true", "ordinary", "" }, { "LONGS_EQUAL_LOCATION", "longs", "ordinary", "" }, { "STRCMP_EQUAL_LOCATION", "cstr", "ordinary", "" },
+    { "CHECK_C_LOCATION", "true", "ordinary", "" }, { "CHECK_EQUAL_C_INT_LOCATION", "longs", "ordinary", "" }, { "CHECK_THROWS", "throws", "ordinary", "" },
+    // index 6..
+    { "MEMCMP_EQUAL", "binary", "length_0", "" }, { "MEMCMP_EQUAL", "binary", "length_0_both_operands_null", "" }, { "MEMCMP_EQUAL", "binary", "length_0_one_null_operand", "" },
+    { "MEMCMP_EQUAL_TEXT", "binary", "length_0_one_null_operand", "" }, { "CHECK_EQUAL_C_MEMCMP", "binary", "length_0", "" }, { "CHECK_EQUAL_C_MEMCMP_TEXT", "binary", "length_0_one_null_operand", "" },
+    { "MEMCMP_EQUAL", "binary", "prefix", "" }, { "MEMCMP_EQUAL", "binary", "both_operands_null", "" }, { "MEMCMP_EQUAL", "binary", "ordinary", "" },
+    { "STRCMP_EQUAL", "cstr", "both_operands_null", "" }, { "STRNCMP_EQUAL", "cstrn", "length_0", "" }, { "STRNCMP_EQUAL", "cstrn", "both_operands_null", "" },
+    { "STRCMP_NOCASE_EQUAL", "cstr_nocase", "both_operands_null", "" }, { "STRCMP_CONTAINS", "contains", "both_operands_null", "" }, { "STRCMP_NOCASE_CONTAINS", "nocase_contains", "both_operands_null", "" },
+    { "STRCMP_NOCASE_EQUAL", "cstr_nocase", "ordinary", "" }, { "STRCMP_CONTAINS", "contains", "ordinary", "" }, { "STRCMP_NOCASE_CONTAINS", "nocase_contains", "ordinary", "" },
+    { "CHECK_TEXT", "true", "ordinary", "" }, { "CHECK_FALSE", "true", "ordinary", "" }, { "CHECK_EQUAL", "equals", "ordinary", "" },
+    { "CHECK_EQUAL_TEXT", "equals", "double_operands", "" }, { "CHECK_EQUAL_ZERO", "equals", "ordinary", "" }, { "UNSIGNED_LONGS_EQUAL", "ulongs", "ordinary", "" },
+    { "LONGLONGS_EQUAL", "longlongs", "extreme_values", "" }, { "UNSIGNED_LONGLONGS_EQUAL", "ulonglongs", "extreme_values", "" }, { "BYTES_EQUAL", "longs", "ordinary", "" },
+    { "SIGNED_BYTES_EQUAL", "sbytes", "ordinary", "" }, { "POINTERS_EQUAL", "pointers", "both_operands_null", "" }, { "FUNCTIONPOINTERS_EQUAL", "fpointers", "ordinary", "" },
+    { "DOUBLES_EQUAL", "doubles", "zero_tolerance", "" }, { "DOUBLES_EQUAL", "doubles", "infinities", "" }, { "BITS_EQUAL", "bits", "empty_mask", "" },
+    { "ENUMS_EQUAL_INT", "equals", "ordinary", "" }, { "ENUMS_EQUAL_TYPE", "equals", "ordinary", "" }, { "CHECK_C_TEXT", "true", "ordinary", "" },
+    { "CHECK_EQUAL_C_BOOL", "equals", "different_truthy_values", "" }, { "CHECK_EQUAL_C_UINT", "ulongs", "ordinary", "" }, { "CHECK_EQUAL_C_LONG", "longs", "extreme_values", "" },
+    { "CHECK_EQUAL_C_ULONG", "ulongs", "extreme_values", "" }, { "CHECK_EQUAL_C_LONGLONG", "longlongs", "ordinary", "" }, { "CHECK_EQUAL_C_ULONGLONG", "ulonglongs", "ordinary", "" },
+    { "CHECK_EQUAL_C_REAL", "doubles", "zero_tolerance", "" }, { "CHECK_EQUAL_C_CHAR", "equals", "ordinary", "" }, { "CHECK_EQUAL_C_UBYTE", "equals", "ordinary", "" },
+    { "CHECK_EQUAL_C_SBYTE", "equals", "ordinary", "" }, { "CHECK_EQUAL_C_STRING", "cstr", "both_operands_null", "" }, { "CHECK_EQUAL_C_POINTER", "pointers", "both_operands_null", "" },
+    { "CHECK_EQUAL_C_BITS", "bits", "empty_mask", "" }, { "CHECK_EQUAL_C_MEMCMP", "binary", "both_operands_null", "" },
+};
+static const int N_CPP = (int) (sizeof CPPFORM / sizeof CPPFORM[0]), N_C = (int) (sizeof CFORM / sizeof CFORM[0]), N_PASS = (int) (sizeof PASSFORM / sizeof PASSFORM[0]);
+static const int N_CPP_ORDINARY = 25, N_C_ORDINARY = 18;   // the variants before the boundary-argument ones
 
 struct Stmt {
     int kind = K_MARK, variant = 0, id = 0;
@@ -63,6 +126,19 @@ struct Stmt {
     bool active(int rep) const { return (mask >> rep) & 1u; }
     bool terminating_kind() const { return kind == K_FAILCPP || kind == K_FAILC || kind == K_THROWSTD || kind == K_THROWINT || kind == K_EXIT; }
 };
+
+static const Form* form_of(const Stmt& s) {
+    if (s.kind == K_PASS) return &PASSFORM[(size_t) s.variant % (size_t) N_PASS];
+    if (s.kind == K_FAILCPP) return &CPPFORM[(size_t) s.variant % (size_t) N_CPP];
+    if (s.kind == K_FAILC) return &CFORM[(size_t) s.variant % (size_t) N_C];
+    return nullptr;
+}
+static int form_kind_index(int kind) { return kind == K_PASS ? 0 : kind == K_FAILCPP ? 1 : 2; }
+static std::string form_label(const Stmt& s, bool failing_path) {     // names the check family and the argument class, never a value
+    const Form* f = form_of(s);
+    if (!f) return std::string("statement-") + KNAME[s.kind];
+    return std::string("check-family-") + f->family + ":" + (failing_path ? f->fail_args : f->pass_args) + (failing_path ? ":failing-path" : ":passing-path");
+}
 
 struct TestSpec {
     std::string group, name, file; int line = 0;
@@ -127,6 +203,7 @@ struct Model {
     long stmt_exec[K_N + 1] = { 0 };
     long phase_outcomes[8] = { 0 };
     long test_exec = 0;
+    long form_exec[3][64][2] = {};            // executed checks by (pass / C++-style / C-style catalogue, variant, passing / failing path)
     long terminator_uses[3] = { 0, 0, 0 };   // per phase: failing C++-style / C-style checks and TEST_EXITs executed (each one goes through the configured terminator)
 };
 
@@ -163,6 +240,7 @@ static Model interpret(const Program& p) {
                     m.trace.push_back(Ev{ EV_STMT, (uint8_t) ph, 0, s.id });
                     m.stmt_exec[s.kind]++;
                     bool act = s.active(rep);
+                    if (form_of(s)) m.form_exec[form_kind_index(s.kind)][s.variant & 63][s.kind != K_PASS && act ? 1 : 0]++;
                     if (s.kind == K_PASS) R.checks++;
                     else if (s.kind == K_FAILCPP || s.kind == K_FAILC) {
                         R.checks++;
@@ -217,6 +295,7 @@ struct Obs {
     uint32_t crash_calls, crash_calls_outside_phase, crash_calls_in_phase[3];
     uint32_t outlen; int out_overflow;
     Ev ev[MAXEV];
+    uint32_t evchk[MAXEV];      // TestResult::getCheckCount() of the result in use, read when the event was recorded (entries < nev are written)
     char out[MAXOUT];
 };
 static Obs* g_obs;
@@ -227,9 +306,9 @@ static void obs_reset() {
     memset(o->hasfailed, -1, sizeof o->hasfailed);
     o->out[0] = 0;
 }
-static inline void rec(uint8_t kind, uint8_t ph, int32_t a) {
+static inline void rec(uint8_t kind, uint8_t ph, int32_t a, size_t checks_so_far) {
     Obs* o = g_obs;
-    if (o->nev < MAXEV) { Ev e = { kind, ph, 0, a }; o->ev[o->nev++] = e; } else o->ev_overflow = 1;
+    if (o->nev < MAXEV) { Ev e = { kind, ph, 0, a }; o->evchk[o->nev] = (uint32_t) checks_so_far; o->ev[o->nev++] = e; } else o->ev_overflow = 1;
 }
 static void out_append(const char* s) {
     Obs* o = g_obs; size_t n = strlen(s);
@@ -285,9 +364,29 @@ static void do_cpp(int v, bool fail, const char* text, const char* f, size_t l) 
     case 21: { EE a = fail ? E_B : E_A; ENUMS_EQUAL_TYPE_LOCATION(int, E_A, a, text, f, l); } break;
     case 22: if (fail) FAIL_TEST_LOCATION(text, f, l); else LONGS_EQUAL_LOCATION(0, 0, NULLPTR, f, l); break;
     case 23: DOUBLES_EQUAL_LOCATION(1.0, fail ? (double) NAN : 1.0, 0.5, text, f, l); break;
-    default: { long e = 10, a = fail ? 11 : 10; CHECK_EQUAL_LOCATION(e, a, NULLPTR, f, l); } break;
+    case 24: { long e = 10, a = fail ? 11 : 10; CHECK_EQUAL_LOCATION(e, a, NULLPTR, f, l); } break;
+    // boundary arguments: the passing path (and for the NULL-operand forms also the failing path) is one of the family's shortcuts
+    case 25: MEMCMP_EQUAL_LOCATION(M1, M3, fail ? 4u : 0u, text, f, l); break;
+    case 26: MEMCMP_EQUAL_LOCATION(fail ? M1 : (const unsigned char*) NULLPTR, (const unsigned char*) NULLPTR, 4, text, f, l); break;
+    case 27: MEMCMP_EQUAL_LOCATION(M1, M3, fail ? 3u : 2u, text, f, l); break;
+    case 28: STRCMP_EQUAL_LOCATION(fail ? "x" : (const char*) NULLPTR, (const char*) NULLPTR, text, f, l); break;
+    case 29: STRNCMP_EQUAL_LOCATION("abc", "abd", fail ? 3u : 0u, text, f, l); break;
+    case 30: STRNCMP_EQUAL_LOCATION(fail ? "x" : (const char*) NULLPTR, (const char*) NULLPTR, 2, text, f, l); break;
+    case 31: STRCMP_NOCASE_EQUAL_LOCATION(fail ? "x" : (const char*) NULLPTR, (const char*) NULLPTR, text, f, l); break;
+    case 32: STRCMP_CONTAINS_LOCATION(fail ? "x" : (const char*) NULLPTR, (const char*) NULLPTR, text, f, l); break;
+    case 33: STRCMP_NOCASE_CONTAINS_LOCATION(fail ? "x" : (const char*) NULLPTR, (const char*) NULLPTR, text, f, l); break;
+    case 34: { unsigned m = fail ? 0xFFu : 0x00u; BITS_LOCATION(0x0Fu, 0xF0u, m, text, f, l); } break;
+    case 35: DOUBLES_EQUAL_LOCATION(1.0, fail ? 1.25 : 1.0, 0.0, text, f, l); break;
+    case 36: DOUBLES_EQUAL_LOCATION((double) INFINITY, fail ? -(double) INFINITY : (double) INFINITY, 1.0, text, f, l); break;
+    case 37: { bool e = true, a = !fail; CHECK_EQUAL_LOCATION(e, a, text, f, l); } break;
+    case 38: { double e = 1.5, a = fail ? 2.5 : 1.5; CHECK_EQUAL_LOCATION(e, a, text, f, l); } break;
+    case 39: POINTERS_EQUAL_LOCATION((const void*) NULLPTR, fail ? (const void*) &g_a : (const void*) NULLPTR, text, f, l); break;
+    case 40: FUNCTIONPOINTERS_EQUAL_LOCATION((void (*)()) NULLPTR, fail ? fn1 : (void (*)()) NULLPTR, text, f, l); break;
+    case 41: LONGS_EQUAL_LOCATION(LONG_MIN, fail ? LONG_MAX : LONG_MIN, text, f, l); break;
+    default: UNSIGNED_LONGS_EQUAL_LOCATION(0ul, fail ? ULONG_MAX : 0ul, text, f, l); break;
     }
 }
+static_assert(sizeof CPPFORM / sizeof CPPFORM[0] == 43, "CPPFORM describes the variants of do_cpp");
 
 static void do_c(int v, bool fail, const char* text, const char* f, size_t l) {
     switch (v) {
@@ -308,9 +407,18 @@ static void do_c(int v, bool fail, const char* text, const char* f, size_t l) {
     case 14: CHECK_EQUAL_C_STRING_LOCATION("abc", fail ? "abd" : "abc", text, f, l); break;
     case 15: CHECK_EQUAL_C_POINTER_LOCATION(&g_a, fail ? &g_b : &g_a, text, f, l); break;
     case 16: CHECK_EQUAL_C_MEMCMP_LOCATION(M1, fail ? M3 : M2, 4, text, f, l); break;
-    default: CHECK_EQUAL_C_BITS_LOCATION(0x0Fu, fail ? 0xF0u : 0x0Fu, 0xFFu, 4, text, f, l); break;
+    case 17: CHECK_EQUAL_C_BITS_LOCATION(0x0Fu, fail ? 0xF0u : 0x0Fu, 0xFFu, 4, text, f, l); break;
+    // boundary arguments
+    case 18: CHECK_EQUAL_C_MEMCMP_LOCATION(M1, M3, fail ? 4u : 0u, text, f, l); break;
+    case 19: CHECK_EQUAL_C_MEMCMP_LOCATION(fail ? M1 : (const unsigned char*) NULLPTR, NULLPTR, 4, text, f, l); break;
+    case 20: CHECK_EQUAL_C_STRING_LOCATION(fail ? "x" : (const char*) NULLPTR, (const char*) NULLPTR, text, f, l); break;
+    case 21: CHECK_EQUAL_C_BITS_LOCATION(0x0Fu, 0xF0u, fail ? 0xFFu : 0x00u, 4, text, f, l); break;
+    case 22: CHECK_EQUAL_C_REAL_LOCATION(1.0, fail ? 1.5 : 1.0, 0.0, text, f, l); break;
+    case 23: CHECK_EQUAL_C_POINTER_LOCATION(NULLPTR, fail ? (const void*) &g_a : (const void*) NULLPTR, text, f, l); break;
+    default: CHECK_EQUAL_C_BOOL_LOCATION(2, fail ? 0 : 1, text, f, l); break;
     }
 }
+static_assert(sizeof CFORM / sizeof CFORM[0] == 25, "CFORM describes the variants of do_c");
 
 static void do_pass(int v, const char* f, size_t l) {
     switch (v) {
@@ -319,9 +427,69 @@ static void do_pass(int v, const char* f, size_t l) {
     case 2: STRCMP_EQUAL_LOCATION("same", "same", NULLPTR, f, l); break;
     case 3: CHECK_C_LOCATION(1, "1", NULLPTR, f, l); break;
     case 4: CHECK_EQUAL_C_INT_LOCATION(4, 4, NULLPTR, f, l); break;
-    default: UtestShell::getCurrent()->countCheck(); break;    // what CHECK_THROWS does on success
+    case 5:
+#ifndef VF_NOEXC
+        CHECK_THROWS(ForeignEx, throw ForeignEx{ 3 });
+#else
+        UtestShell::getCurrent()->countCheck();    // what CHECK_THROWS does on success (the macro needs exception support)
+#endif
+        break;
+    // binary comparison over an empty range, NULL operands, prefixes
+    case 6: MEMCMP_EQUAL(M1, M3, 0); break;
+    case 7: MEMCMP_EQUAL(NULLPTR, NULLPTR, 0); break;
+    case 8: MEMCMP_EQUAL(M1, NULLPTR, 0); break;
+    case 9: MEMCMP_EQUAL_TEXT(NULLPTR, M3, 0, "empty range"); break;
+    case 10: CHECK_EQUAL_C_MEMCMP(M1, M3, 0); break;
+    case 11: CHECK_EQUAL_C_MEMCMP_TEXT(NULLPTR, M3, 0, "nothing to compare"); break;
+    case 12: MEMCMP_EQUAL(M1, M3, 2); break;
+    case 13: MEMCMP_EQUAL(NULLPTR, NULLPTR, 4); break;
+    case 14: MEMCMP_EQUAL(M1, M2, sizeof M1); break;
+    // string comparisons: NULL operands, length 0
+    case 15: STRCMP_EQUAL((const char*) NULLPTR, (const char*) NULLPTR); break;
+    case 16: STRNCMP_EQUAL("abc", "xyz", 0); break;
+    case 17: STRNCMP_EQUAL((const char*) NULLPTR, (const char*) NULLPTR, 3); break;
+    case 18: STRCMP_NOCASE_EQUAL((const char*) NULLPTR, (const char*) NULLPTR); break;
+    case 19: STRCMP_CONTAINS((const char*) NULLPTR, (const char*) NULLPTR); break;
+    case 20: STRCMP_NOCASE_CONTAINS((const char*) NULLPTR, (const char*) NULLPTR); break;
+    case 21: STRCMP_NOCASE_EQUAL("Hello", "hELLO"); break;
+    case 22: STRCMP_CONTAINS("ell", "hello"); break;
+    case 23: STRCMP_NOCASE_CONTAINS("ELL", "hello"); break;
+    // the remaining plain macros
+    case 24: CHECK_TEXT(g_a == 1, "user text"); break;
+    case 25: CHECK_FALSE(g_a == g_b); break;
+    case 26: CHECK_EQUAL(3, g_a + g_b); break;
+    case 27: CHECK_EQUAL_TEXT(2.5, 2.5, "user text"); break;
+    case 28: CHECK_EQUAL_ZERO(g_a - 1); break;
+    case 29: UNSIGNED_LONGS_EQUAL(0u, 0u); break;
+    case 30: LONGLONGS_EQUAL(LLONG_MIN, LLONG_MIN); break;
+    case 31: UNSIGNED_LONGLONGS_EQUAL(ULLONG_MAX, ULLONG_MAX); break;
+    case 32: BYTES_EQUAL(0xFF, -1); break;
+    case 33: SIGNED_BYTES_EQUAL(-1, -1); break;
+    case 34: POINTERS_EQUAL(NULLPTR, NULLPTR); break;
+    case 35: FUNCTIONPOINTERS_EQUAL(fn1, fn1); break;
+    case 36: DOUBLES_EQUAL(1.0, 1.0, 0.0); break;
+    case 37: DOUBLES_EQUAL((double) INFINITY, (double) INFINITY, 0.0); break;
+    case 38: BITS_EQUAL(0xFFu, 0x00u, 0x00u); break;
+    case 39: ENUMS_EQUAL_INT(E_A, E_A); break;
+    case 40: ENUMS_EQUAL_TYPE(unsigned char, E_B, E_B); break;
+    case 41: CHECK_C_TEXT(g_b == 2, "user text"); break;
+    case 42: CHECK_EQUAL_C_BOOL(5, 1); break;
+    case 43: CHECK_EQUAL_C_UINT(7u, 7u); break;
+    case 44: CHECK_EQUAL_C_LONG(LONG_MAX, LONG_MAX); break;
+    case 45: CHECK_EQUAL_C_ULONG(ULONG_MAX, ULONG_MAX); break;
+    case 46: CHECK_EQUAL_C_LONGLONG(-9LL, -9LL); break;
+    case 47: CHECK_EQUAL_C_ULONGLONG(9ULL, 9ULL); break;
+    case 48: CHECK_EQUAL_C_REAL(1.0, 1.0, 0.0); break;
+    case 49: CHECK_EQUAL_C_CHAR('a', 'a'); break;
+    case 50: CHECK_EQUAL_C_UBYTE(200, 200); break;
+    case 51: CHECK_EQUAL_C_SBYTE(-3, -3); break;
+    case 52: CHECK_EQUAL_C_STRING((const char*) NULLPTR, (const char*) NULLPTR); break;
+    case 53: CHECK_EQUAL_C_POINTER(NULLPTR, NULLPTR); break;
+    case 54: CHECK_EQUAL_C_BITS(0xFFu, 0x00u, 0x00u); break;
+    default: CHECK_EQUAL_C_MEMCMP(NULLPTR, NULLPTR, 4); break;
     }
 }
+static_assert(sizeof PASSFORM / sizeof PASSFORM[0] == 56, "PASSFORM describes the variants of do_pass");
 
 static void __attribute__((noinline)) exec_core(const Stmt& s, int rep) {
     const char* f = s.file.c_str(); size_t l = (size_t) s.line; const char* text = s.text.c_str();
@@ -366,8 +534,10 @@ static void crash_hook_that_returns() {     // a debugger trap / stack-trace log
     if (G.cur_phase >= 0 && G.cur_phase < 3) o->crash_calls_in_phase[G.cur_phase]++; else o->crash_calls_outside_phase++;
 }
 
+static TestResult* current_result();
 static void run_phase(int idx, int ph) {
-    rec(EV_ENTER, (uint8_t) ph, idx);
+    TestResult* res = current_result();      // the result the checks of this phase count into (read before every statement)
+    rec(EV_ENTER, (uint8_t) ph, idx, res->getCheckCount());
     G.cur_phase = ph;
     Obs* o = g_obs;
     int d = CppUTestVerif_JumpBufferDepth();
@@ -382,7 +552,7 @@ static void run_phase(int idx, int ph) {
         const std::vector<Stmt>& v = t.ph[ph];
         for (size_t k = 0; k < v.size(); k++) {          // no object with a destructor is alive across a statement
             const Stmt& s = v[k];
-            rec(EV_STMT, (uint8_t) ph, s.id);
+            rec(EV_STMT, (uint8_t) ph, s.id, res->getCheckCount());
             if (s.deep) exec_deep(s, rep, s.deep); else exec_core(s, rep);
         }
     }
@@ -410,6 +580,7 @@ public:
     Utest* createTest() CPPUTEST_OVERRIDE { if (G.create_count[idx] < 1000) G.create_count[idx]++; return new ScriptTest(idx); }
 };
 static ScriptShell* g_peek;   // any shell object gives access to the protected current-result accessor
+static TestResult* current_result() { return g_peek->peekResult(); }
 
 static int shell_index(UtestShell& t) {
     for (size_t i = 0; i < G.ntests; i++) if (G.shells[i] == &t) return (int) i;
@@ -423,7 +594,7 @@ public:
         Obs* o = g_obs; int idx = shell_index(t);
         if (idx < 0) { o->unknown_shell++; return; }
         int rep = G.pre_count[idx]++;
-        rec(EV_PRE, 0, idx);
+        rec(EV_PRE, 0, idx, r.getCheckCount());
         G.depth_pre[idx] = CppUTestVerif_JumpBufferDepth();
         G.entry_depth[0] = G.entry_depth[1] = G.entry_depth[2] = -1;
         G.cur_phase = -1;
@@ -437,7 +608,7 @@ public:
         Obs* o = g_obs; int idx = shell_index(t);
         if (idx < 0) { o->unknown_shell++; return; }
         int rep = G.post_count[idx]++;
-        rec(EV_POST, 0, idx);
+        rec(EV_POST, 0, idx, r.getCheckCount());
         G.cur_phase = -1;
         int d = CppUTestVerif_JumpBufferDepth();
         o->depth_checks++;
@@ -665,10 +836,12 @@ static void judge(vf::Ctx& c, const Program& p, const Model& m, const Obs& o) {
     if (o.unknown_shell) c.violation("plugin:action-for-unknown-test", "plugin action called with a shell that is not part of the program: " + std::to_string(o.unknown_shell));
 
     // ---- 1. execution trace
+    bool trace_ok = false;
     {
         size_t n = std::min((size_t) o.nev, m.trace.size() - 1), i = 0;
         while (i < n && o.ev[i] == m.trace[i]) i++;
         bool obs_end = i >= o.nev, exp_end = i >= m.trace.size() - 1;
+        trace_ok = obs_end && exp_end;
         if (!(obs_end && exp_end)) {
             Ev got = obs_end ? Ev{ EV_END, 0, 0, 0 } : o.ev[i];
             Ev exp = exp_end ? Ev{ EV_END, 0, 0, 0 } : m.trace[i];
@@ -688,6 +861,47 @@ static void judge(vf::Ctx& c, const Program& p, const Model& m, const Obs& o) {
         }
         c.count("trace_events_compared", i);
     }
+
+    // ---- 1b. what every single statement added to the check counter of the result in use: the counter is read when an event is
+    // recorded, so the difference to the next event of the same test is the contribution of that statement (also of one that left its
+    // phase: the next event is then the entry of the next phase or the post action). The property speaks of the counts of the summary,
+    // so a deviation is NOT judged here; it names the culprit when the count of a repetition turns out wrong (sections 2 and 3).
+    struct Miscount { std::string label, macro; long got, want; long times; int test; };
+    std::vector<std::vector<Miscount>> miscounts((size_t) p.reps);
+    if (trace_ok) {
+        std::vector<int> pre_seen(p.tests.size(), 0);
+        uint64_t compared = 0, unexpected = 0;
+        for (uint32_t i = 0; i + 1 < o.nev; i++) {
+            const Ev& a = o.ev[i]; const Ev& b = o.ev[i + 1];
+            if (a.kind == EV_PRE && a.a >= 0 && a.a < (int) pre_seen.size()) pre_seen[(size_t) a.a]++;
+            if (a.kind == EV_POST || b.kind == EV_PRE) continue;                    // between two tests
+            long got = (long) o.evchk[i + 1] - (long) o.evchk[i], want = 0;
+            int test = a.a; std::string label = "no-statement:" + ev_kind(a), macro = "-";
+            bool failing_path = false; const Stmt* st = nullptr;
+            if (a.kind == EV_STMT) {
+                if (a.a < 0 || a.a >= (int) by_id.size()) continue;
+                st = by_id[(size_t) a.a].s; test = by_id[(size_t) a.a].test;
+            }
+            int rep = test >= 0 && test < (int) pre_seen.size() ? pre_seen[(size_t) test] - 1 : -1;
+            if (rep < 0 || rep >= p.reps) continue;
+            if (st) {
+                failing_path = st->kind != K_PASS && st->active(rep);
+                want = form_of(*st) ? 1 : 0;
+                label = form_label(*st, failing_path);
+                macro = std::string(KNAME[st->kind]) + (form_of(*st) ? std::string(" ") + form_of(*st)->macro : std::string());
+            }
+            compared++;
+            if (got == want) continue;
+            unexpected++;
+            std::vector<Miscount>& v = miscounts[(size_t) rep];
+            bool found = false;
+            for (Miscount& x : v) if (x.label == label && x.got == got) { x.times++; found = true; break; }
+            if (!found && v.size() < 12) v.push_back(Miscount{ label, macro, got, want, 1, test });
+        }
+        c.count("statement_check_count_deltas_compared", compared);
+        if (unexpected) c.count("statement_check_count_deltas_unexpected", unexpected);
+    }
+    std::vector<int> checks_wrong((size_t) p.reps, 0);
 
     // ---- 2. printed output: failures and summary, per repetition
     std::vector<RepOut> ro = parse_output(std::string(o.out, o.outlen));
@@ -740,6 +954,7 @@ static void judge(vf::Ctx& c, const Program& p, const Model& m, const Obs& o) {
         if (!r.summary) continue;
         c.count("summaries_parsed");
         struct { const char* n; long got, want; } cmp[] = { { "tests", r.tests, R.tests }, { "ran", r.ran, R.ran }, { "checks", r.checks, R.checks }, { "ignored", r.ignored, R.ignored }, { "filtered-out", r.filtered, R.filtered } };
+        if (r.checks != R.checks) checks_wrong[rep] |= 1;
         for (auto& x : cmp) if (x.got != x.want) c.violation(std::string("summary:wrong-count:") + x.n, std::string("summary '") + r.line + "' says " + std::to_string(x.got) + " " + x.n + ", the repetition had " + std::to_string(x.want) + " (repetition " + std::to_string(rep) + ")");
         if (r.has_failcount && r.failures != R.failures) c.violation("summary:wrong-count:failures", "summary '" + r.line + "' says " + std::to_string(r.failures) + " failures, the repetition had " + std::to_string(R.failures));
         if (r.ok_word && !R.ok) c.violation(R.failures ? "summary:verdict:ok-with-failures" : "summary:verdict:ok-when-nothing-ran-or-ignored", "summary '" + r.line + "' but the repetition had " + std::to_string(R.failures) + " failures, " + std::to_string(R.ran) + " ran, " + std::to_string(R.ignored) + " ignored");
@@ -752,9 +967,19 @@ static void judge(vf::Ctx& c, const Program& p, const Model& m, const Obs& o) {
         const RepCounters& rc = o.rc_[rep]; if (!rc.valid) continue;
         const MRep& R = m.reps[(size_t) rep];
         struct { const char* n; long got, want; } cmp[] = { { "tests", rc.tests, R.tests }, { "ran", rc.ran, R.ran }, { "checks", rc.checks, R.checks }, { "ignored", rc.ignored, R.ignored }, { "filtered-out", rc.filtered, R.filtered }, { "failures", rc.failures, R.failures } };
+        if (rc.checks != R.checks) checks_wrong[(size_t) rep] |= 2;
         for (auto& x : cmp) if (x.got != x.want) c.violation(std::string("result-counter:") + x.n, std::string("TestResult says ") + std::to_string(x.got) + " " + x.n + ", the repetition had " + std::to_string(x.want) + " (repetition " + std::to_string(rep) + ")");
         if ((rc.is_failure != 0) != !R.ok) c.violation(R.ok ? "isfailure:true-on-clean-repetition" : R.failures ? "isfailure:false-with-failures" : "isfailure:false-when-nothing-ran-or-ignored", "isFailure()=" + std::to_string(rc.is_failure) + " with " + std::to_string(R.failures) + " failures, " + std::to_string(R.ran) + " ran, " + std::to_string(R.ignored) + " ignored");
         c.count("result_counter_sets_compared");
+    }
+
+    // ---- 3b. a repetition whose check count is wrong: which statements were not counted once
+    for (int rep = 0; rep < p.reps; rep++) {
+        if (!checks_wrong[(size_t) rep]) continue;
+        c.count("repetitions_with_wrong_check_count");
+        for (const Miscount& x : miscounts[(size_t) rep])
+            c.violation("checks:miscounted:" + x.label + ":counted-" + std::to_string(x.got) + "-instead-of-" + std::to_string(x.want),
+                        std::string(checks_wrong[(size_t) rep] & 1 ? "summary" : "TestResult") + " of repetition " + std::to_string(rep) + " has a wrong number of checks; the check counter moved by " + std::to_string(x.got) + " instead of " + std::to_string(x.want) + " across this statement (" + x.macro + "), " + std::to_string(x.times) + " time(s), first in test " + std::to_string(x.test) + " " + (x.test >= 0 && x.test < (int) p.tests.size() ? p.tests[(size_t) x.test].formatted() : std::string("?")));
     }
 
     // ---- 4. value returned by the command line runner
@@ -832,6 +1057,24 @@ static void judge(vf::Ctx& c, const Program& p, const Model& m, const Obs& o) {
     c.count("test_executions", (uint64_t) m.test_exec);
     for (int k = 0; k <= K_N; k++) if (m.stmt_exec[k]) c.count(std::string("executed_") + KNAME[k], (uint64_t) m.stmt_exec[k]);
     for (int k = 1; k < 8; k++) if (m.phase_outcomes[k]) c.count(std::string("phase_outcome_") + ONAME[k], (uint64_t) m.phase_outcomes[k]);
+    {   // the check catalogue: what was executed, by family, argument class and path
+        static const Form* const TAB[3] = { PASSFORM, CPPFORM, CFORM }; const int NTAB[3] = { N_PASS, N_CPP, N_C };
+        uint64_t zero_len = 0, null_ops = 0, boundary = 0, boundary_failing = 0;
+        for (int k = 0; k < 3; k++) for (int v = 0; v < NTAB[k] && v < 64; v++) for (int path = 0; path < 2; path++) {
+            uint64_t n = (uint64_t) m.form_exec[k][v][path]; if (!n) continue;
+            const Form& f = TAB[k][v]; std::string args = path ? f.fail_args : f.pass_args;
+            c.count(std::string("checks_") + f.family + "_" + args + (path ? "_failing" : "_passing"), n);
+            if (std::string(f.family) == "binary" && args.compare(0, 8, "length_0") == 0) zero_len += n;
+            if (args.find("null") != std::string::npos) null_ops += n;
+            if (args != "ordinary") { boundary += n; if (path) boundary_failing += n; }
+        }
+        if (zero_len) c.count("zero_length_binary_compares_executed", zero_len);
+        if (null_ops) c.count("checks_with_null_operands_executed", null_ops);
+        if (boundary) c.count("boundary_argument_checks_executed", boundary);
+        if (boundary_failing) c.count("boundary_argument_checks_failing", boundary_failing);
+        if (zero_len) c.count("programs_with_a_zero_length_binary_compare");
+        if (zero_len && m.any_failing_phase) c.count("programs_with_a_zero_length_binary_compare_and_a_failing_phase");
+    }
     int longest = 0;
     for (const MRep& R : m.reps) { c.count(R.ok ? "repetitions_ok" : R.failures ? "repetitions_with_failures" : "repetitions_ran_nothing"); c.count("failures_expected", (uint64_t) R.failures); longest = std::max(longest, R.longest_jump_run); }
     if (longest > CppUTestVerif_JumpBufferCapacity()) c.count("programs_with_failing_run_longer_than_jump_buffer_stack");
@@ -1032,7 +1275,8 @@ static std::string describe(const Program& p) {
             for (size_t k = 0; k < t.ph[ph].size(); k++) {
                 const Stmt& s = t.ph[ph][k];
                 d += (k ? "," : "") + std::string(KNAME[s.kind]);
-                if (s.kind == K_FAILCPP || s.kind == K_FAILC || s.kind == K_THROWSTD || s.kind == K_THROWINT) d += "#" + std::to_string(s.variant);
+                if (s.kind == K_FAILCPP || s.kind == K_FAILC || s.kind == K_THROWSTD || s.kind == K_THROWINT || s.kind == K_PASS) d += "#" + std::to_string(s.variant);
+                if (const Form* fm = form_of(s)) { d += std::string("=") + fm->macro + "(" + fm->pass_args; if (s.kind != K_PASS) d += std::string("|") + fm->fail_args; d += ")"; }
                 if (s.terminating_kind()) { d += "@" + s.file + ":" + std::to_string(s.line); if (s.mask != 0xF) d += "/reps=" + std::to_string(s.mask & ((1u << p.reps) - 1)); }
                 if (s.deep) d += "+" + std::to_string(s.deep);
             }
@@ -1149,6 +1393,45 @@ static void sec_totals(vf::Ctx& c) {
     run_and_judge(c, pp);
 }
 
+// complete enumeration of the check catalogue: every check form (passing forms, C++-style and C-style forms on their failing AND their
+// passing path: the failing ones fail in the first repetition only) x the phase it stands in x registry / runner. The form stands between
+// two ordinary passing checks, is repeated in a loop-like second test (three times in a row, e.g. "compare the prefixes 0..n"), and is
+// followed by a test whose body ends in an ordinary failing check, so that OK and Errors summaries both have to carry the count.
+static const int CAT_N = (int) (sizeof PASSFORM / sizeof PASSFORM[0] + sizeof CPPFORM / sizeof CPPFORM[0] + sizeof CFORM / sizeof CFORM[0]);
+static void sec_catalogue(vf::Ctx& c) {
+    uint64_t i = c.idx;
+    int form = (int) (i % (uint64_t) CAT_N); i /= (uint64_t) CAT_N;
+    int ph = (int) (i % 3); i /= 3;
+    int mode = (int) (i % 2);
+    int kind = K_PASS, variant = form;
+    if (variant >= N_PASS) { variant -= N_PASS; kind = K_FAILCPP; if (variant >= N_CPP) { variant -= N_CPP; kind = K_FAILC; } }
+    auto pp = std::make_shared<Program>();
+    Program& p = *pp; p.mode = mode; p.reps = 2; p.shape = "check_catalogue";
+    GenState g; g.reps = 2;
+    auto mk = [&](TestSpec& ts, int& seq, int k, int v, unsigned mask) {
+        Stmt s; s.id = g.next_id++; s.kind = k; s.variant = v; s.mask = mask; s.file = ts.file; s.line = ts.line + 1 + seq++; s.text = "tok" + std::to_string(s.id) + "q"; return s;
+    };
+    for (int t = 0; t < 3; t++) {
+        TestSpec ts; ts.group = "Cat"; ts.name = "t" + std::to_string(t); ts.file = "tests_cat.cpp"; ts.line = 1000 + 100 * t;
+        int seq = 0;
+        if (t == 0) {
+            for (int q = 0; q < 3; q++) {
+                ts.ph[q].push_back(mk(ts, seq, K_PASS, q, 0xF));
+                if (q == ph) { ts.ph[q].push_back(mk(ts, seq, kind, variant, kind == K_PASS ? 0xFu : 0x1u)); ts.ph[q].push_back(mk(ts, seq, K_PASS, 1, 0xF)); }
+            }
+        } else if (t == 1) {
+            for (int q = 0; q < 3; q++) ts.ph[ph].push_back(mk(ts, seq, kind, variant, kind == K_PASS ? 0xFu : 0x0u));     // passing path three times in a row
+        } else {
+            ts.ph[1].push_back(mk(ts, seq, kind, variant, kind == K_PASS ? 0xFu : 0x0u));
+            ts.ph[1].push_back(mk(ts, seq, (c.idx & 1) ? K_FAILC : K_FAILCPP, 4, 0x2));                                     // second repetition: an ordinary failing check after it
+        }
+        p.tests.push_back(ts);
+    }
+    finish_program(c.rng, p, g, 0);
+    c.count("catalogue_forms_enumerated");
+    run_and_judge(c, pp);
+}
+
 int main(int argc, char** argv) {
     g_obs = (Obs*) mmap(nullptr, sizeof(Obs), PROT_READ | PROT_WRITE, MAP_SHARED | MAP_ANONYMOUS, -1, 0);
     if (g_obs == MAP_FAILED) { perror("mmap"); return 2; }
@@ -1158,6 +1441,7 @@ int main(int argc, char** argv) {
     std::vector<vf::Section> S = {
         { "outcome_triples", ntri, ntri, sec_triples, true },
         { "failure_totals_around_256", (uint64_t) TOT_N * 4, (uint64_t) TOT_N * 4, sec_totals, true },
+        { "check_catalogue", (uint64_t) CAT_N * 6, (uint64_t) CAT_N * 6, sec_catalogue, true },
         { "registry_programs", 3000, 40000, sec_registry, false },
         { "runner_programs", 2000, 25000, sec_runner, false },
         { "process_programs", 200, 1200, sec_process, false },
